@@ -14,6 +14,9 @@ Driver for C15 (`Composite::from_string`).  Protocol: harness/src/bin/c15.rs.
   k <name> <maxw> <text> | <parts>          Clifford-only description: `conjugate()` of the built composite on every Pauli
                                             string -> `conj <is_stabilizer> <w> ; r ; r …` (model: `Q1t.Conj.conjugate` on the
                                             model's composite; (B): M·P = ±P′·M for M = product of the documented unitaries)
+  a <name> <maxw> <text> | <parts> | <vector> | <matrix>   ACTION: `apply`/`apply_slice` on the vector, `apply_mat` on the
+                                            2^w x 2 matrix -> `act <w> | apply … | slice … | mat …` (model: the composite's routes
+                                            `Gate.route`; (B): the ordered product of the documented unitaries times the input)
   s <name> <maxw> <text> | <parts> | <in>   the composite in a circuit (basis state, composite, inverses of the listed gates
                                             in reverse, measure_all) on both backends -> `circ S <digits>:<n>,… V …`
 
@@ -199,6 +202,46 @@ def parseParts : Nat → List String → Option (List PartL)
       | [] => none
   | _, _ => none
 
+/-! ### the action (kind `a`) -/
+
+def showVec (v : List CFloat) : String := " ".intercalate (v.map showC)
+
+def hexVec (s : String) : Option (List CFloat) :=
+  let rec go : List String → Option (List CFloat)
+    | [] => some []
+    | a :: b :: r => do
+        let x ← hexToFloat? a; let y ← hexToFloat? b
+        let rest ← go r
+        pure (⟨x, y⟩ :: rest)
+    | _ => none
+  go (words s)
+
+def pairs (v : List CFloat) : List (List CFloat) :=
+  (List.range (v.length / 2)).map fun r => (v.drop (2 * r)).take 2
+
+/-- The model's `apply` / `apply_slice` / `apply_mat` of the composite it builds. -/
+def actAnswer (name text : List Char) (v m : List CFloat) : String :=
+  match FromString.fromString Expr.floatOps FromString.genTables (String.ofList name) text with
+  | .ok g =>
+    let w := Gate.nrBits g
+    if v.length ≠ 2 ^ w then s!"act {w} | state-of-wrong-size" else
+    let a : String := match Gate.route (α := CFloat) .vec g v with
+      | some r => showVec r
+      | none => "panic"
+    let b : String := match Gate.route (α := CFloat) .mat g (pairs m) with
+      | some r => showVec r.flatten
+      | none => "panic"
+    s!"act {w} | apply {a} | slice {a} | mat {b}"
+  | .err e => showErr e
+  | .panic site => s!"panic {site}"
+  | .fuel => "model-out-of-fuel"
+
+def vecDist (a b : List CFloat) : Float :=
+  if a.length ≠ b.length then 1e9 else (List.zipWith CFloat.dist a b).foldl max 0
+
+def mulVec (M : LMat CFloat) (v : List CFloat) : List CFloat :=
+  M.map fun row => (List.zipWith (· * ·) row v).foldl (· + ·) 0
+
 /-! ### the stabilizer route (kinds `k`, `s`) -/
 
 open Q1t.Tableau (P) in
@@ -326,6 +369,39 @@ def specS (input : String) (ans : String) : String :=
       else "fail unexpected-answer"
     | _ => s!"fail circuit-did-not-run {ans.take 80}"
 
+/-- (B) for `a`: the built composite ACTS as the listed gates applied in order to the listed qubits. -/
+def specA (name : List Char) (structure_ : String) (text : List Char) (vS mS : String) (ans : String) : String :=
+  match parseParts 1000 (words structure_), hexVec vS, hexVec mS with
+  | some ps, some v, some m =>
+    if Spec.FromString.renderDesc ps != text || ps.isEmpty || !(ps.all fun p => p.WF && p.Matches) ||
+        !Spec.FromString.distinctBits ps || (ps.any fun p => p.bigInt) then "fail bad-request"
+    else match Spec.FromString.expected Spec.ExprGrammar.ieee (String.ofList name) ps with
+    | none => "fail bad-request no-documented-gate"
+    | some g =>
+      let w := Spec.FromString.maxIndex ps + 1
+      match ans.splitOn " | " with
+      | [h, a, b, c] =>
+        if words h ≠ ["act", toString w] then s!"fail wrong-width {h}"
+        else match words a, words b, words c with
+          | "apply" :: ra, "slice" :: rb, "mat" :: rc =>
+            match hexVec (" ".intercalate ra), hexVec (" ".intercalate rb), hexVec (" ".intercalate rc) with
+            | some ra, some rb, some rc =>
+              let M : LMat CFloat := Spec.specMatrix g
+              let want := mulVec M v
+              let col (k : Nat) (x : List CFloat) : List CFloat := (pairs x).map fun r => r.getD k 0
+              let d1 := vecDist ra want
+              let d2 := vecDist rb want
+              let d3 := max (vecDist (col 0 rc) (mulVec M (col 0 m))) (vecDist (col 1 rc) (mulVec M (col 1 m)))
+              if want.any (fun c => c.re.isNaN || c.im.isNaN) then "skip"
+              else if d1 > 1e-9 then s!"fail apply-differs-from-listed-gates dist={d1}"
+              else if d2 > 1e-9 then s!"fail apply_slice-differs-from-listed-gates dist={d2}"
+              else if d3 > 1e-9 then s!"fail apply_mat-differs-from-listed-gates dist={d3}"
+              else "ok"
+            | _, _, _ => if ans.contains "panic" then "fail panic" else "fail unparsable-answer"
+          | _, _, _ => "fail unparsable-answer"
+      | _ => if ans.startsWith "panic" then "fail panic" else s!"fail valid-description-rejected {ans.take 60}"
+  | _, _, _ => "fail bad-request"
+
 def handle (line : String) : String :=
   match line.splitOn " | " with
   | head :: extra =>
@@ -334,6 +410,13 @@ def handle (line : String) : String :=
       match decodeText name, maxw.toNat?, decodeText txt with
       | some n, some w, some s =>
         if kind = "k" then conjAnswer n s
+        else if kind = "a" then
+          (match extra with
+           | [_, vS, mS] =>
+             (match hexVec vS, hexVec mS with
+              | some v, some m => actAnswer n s v m
+              | _, _ => "bad-request")
+           | _ => "bad-request")
         else if kind = "s" then
           (match extra with
            | [st, inp] =>
@@ -490,6 +573,10 @@ def specCheck (line : String) : String :=
           else if kind = "k" then
             (match extra with
              | [st] => specK name st text ans
+             | _ => "fail bad-request")
+          else if kind = "a" then
+            (match extra with
+             | [st, vS, mS] => specA name st text vS mS ans
              | _ => "fail bad-request")
           else if kind = "s" then
             (match extra with
